@@ -36,3 +36,13 @@ void h_sa_wakeup(void) { gh_P_cell = 0; gh_F_slot = 0; SYNCAW *s = malloc(sizeof
 #ifdef CV_HAS_co_await_resume
 void h_co_await_resume(void) { REG_COAW(a); co_await_resume(a); __CPROVER_assert(0, "SENTINEL reachable"); }
 #endif
+#define REG_FUT_E2E(fu) gh_INSTANCE = (void *)AW_INSTANCE; gh_DISABLED = (void *)AW_DISABLED; gh_P_cell = 0; FUT *fu = malloc(sizeof(FUT)); __CPROVER_assume(fu != 0); gh_F_fut = fu; gh_F_slot = (void **)&fu->base_future_common._awaiter._M_b._M_p; \
+   gh_my_node = 0; gh_node_own = OWN_NONE; cv_i8 *eo = __cxa_allocate_exception(8); if (fu->base_future_common._state == 3) *(void **)&fu->f1 = eo
+#define E2E_SENTINELS(fu) if (gh_wait_calls) __CPROVER_assert(0, "SENTINEL reachable: blocked and woken"); else __CPROVER_assert(0, "SENTINEL reachable: already resolved"); \
+   if (fu->base_future_common._state == 1) __CPROVER_assert(0, "SENTINEL reachable: outcome value"); else __CPROVER_assert(0, "SENTINEL reachable: outcome exception")
+#ifdef CV_HAS_fu_wait_e2e
+void h_fu_wait_e2e(void) { REG_FUT_E2E(fu); fu_wait_e2e(fu); E2E_SENTINELS(fu); }
+#endif
+#ifdef CV_HAS_fu_force_wait_e2e
+void h_fu_force_wait_e2e(void) { REG_FUT_E2E(fu); fu_force_wait_e2e(fu); E2E_SENTINELS(fu); }
+#endif
